@@ -14,6 +14,8 @@ try:
             mod.exhaustive(res, "quick", wd)
             if hasattr(mod, "mutants"):
                 mod.mutants(res, "quick", wd)
+            if hasattr(mod, "apalache"):
+                mod.apalache(res, wd)
         except Exception as e:
             print("warm %s: %s" % (eng, e))
 finally:
